@@ -229,6 +229,7 @@ impl Generated {
                 }
                 (c, true)
             }
+            0 if i % 16 == 9 => (json!({"iss": "https://issuer.example", "exp": self.now + 100000}), false),
             0 => (self.common.clone(), true),
             1 => (self.per_thread_claims[t].clone(), true),
             _ => (gen_claims(&mut r, &tree_cfg(), self.now), false),
@@ -709,6 +710,37 @@ pub fn run(ctx: &mut Ctx, replay_path: Option<&str>) {
         }
         run_history(ctx, &mut seen, plan, keep_every, &format!("run.T{:02}", threads));
         ctx.count_n("threads_run", *threads);
+    }
+    // one very wide credential: whatever the issuer does per object with the digests of its members (sorting, de-duplication,
+    // bookkeeping keyed on part of a digest) meets rare coincidences only at this scale
+    #[cfg(not(feature = "mock"))]
+    {
+        let n = ctx.tier.pick(170_000, 600_000);
+        let mut m = serde_json::Map::new();
+        m.insert("iss".into(), json!("https://issuer.example"));
+        m.insert("exp".into(), json!(now + 100000));
+        for i in 0..n {
+            m.insert(format!("m{}", i), json!(i % 10));
+        }
+        let a = IssueArgs { claims: Value::Object(m), strategy: Strategy::All, holder: None, decoy: false, fmt: Fmt::Compact, key: KeyId::Hmac1, alg: Some("HS256".into()), queue: None };
+        let res = issue(&a);
+        ctx.impl_calls += 1;
+        ctx.evaluations += 1;
+        ctx.oracle_checks += 1;
+        let case = json!({"kind": "wide", "members": n, "strategy": "all", "decoy": false, "fmt": "compact"});
+        match res.out.ok() {
+            Some(issued) => {
+                let chk = check_issuance(a.fmt, issued, &res.salts);
+                ctx.count_n("wide_credential.disclosures", chk.disclosures);
+                if !chk.problems.is_empty() {
+                    ctx.violation("oracle", "issue", &format!("very wide credential: {}", chk.problems[0]), case, json!({"problems": chk.problems.iter().take(5).collect::<Vec<_>>(), "count": chk.problems.len()}),
+                                  json!("every salt a logged draw used once; every disclosure's SHA-256 embedded exactly once; no other digest"));
+                } else {
+                    ctx.nontrivial(&case);
+                }
+            }
+            None => ctx.count("wide_credential.not_issued"),
+        }
     }
     if seen.n >= MIN_SALTS_FOR_BIT_TEST {
         ctx.oracle_checks += 1;
